@@ -66,6 +66,22 @@ class F8(dtypes.IntFlag):
     H = 128
 
 
+class FMask(dtypes.IntFlag):
+    """single-bit members + zero member + alias + multi-bit combinations + a mask none of whose bits has its own member"""
+    NONE = 0
+    READ = 1
+    WRITE = 2
+    EXEC = 4
+    RW = 3            # READ | WRITE
+    ALL = 7           # READ | WRITE | EXEC
+    GET = 1           # alias of READ
+    BIT5 = 0x20
+    HIGH_MASK = 0xC0
+
+
+FLAG_CLASSES = {"F8": F8, "mask": FMask}
+
+
 class SEnum(dtypes.StringEnum):
     FOO = "foo"
     BAR = "bar"
@@ -242,13 +258,18 @@ def _terms(t) -> Tuple[bytes, ...]:
 
 
 def _key_fun(key):
-    """key = (up, selector): walk ``up`` frames towards the root, then index (int) or item (str)."""
-    up, sel = int(key[0]), key[1]
+    """key = (up, selector[, "attr"]): walk ``up`` frames towards the root (``ctx._``), or jump to ``ctx._root`` when up == "root",
+    then index (int) / item (str) -- or attribute access (``ctx._.Field``) with "attr"."""
+    up, sel = key[0], key[1]
+    attr = len(key) > 2 and key[2] == "attr"
 
     def fun(ctx):
-        for _ in range(up):
-            ctx = ctx._
-        return ctx[sel]
+        if up == "root":
+            ctx = ctx._root
+        else:
+            for _ in range(int(up)):
+                ctx = ctx._
+        return getattr(ctx, sel) if attr else ctx[sel]
     return fun
 
 
@@ -353,7 +374,7 @@ def build(desc) -> Any:
     if k == "intenum":
         return se.IntEnum(E8, getattr(se, d[1]), strict=d[2])
     if k == "intflag":
-        return se.IntFlag(F8, getattr(se, d[1]))
+        return se.IntFlag(FLAG_CLASSES[d[2]] if len(d) > 2 else F8, getattr(se, d[1]))
     if k == "bitfield":
         return se.BitField(getattr(se, d[1]), _bitfield_schema(d[2]), shift=d[3])
     if k == "bfdc":
@@ -457,8 +478,10 @@ def _seq_ok(vals: Sequence[Val]) -> bool:
 
 
 def _lookup(env, key):
-    up, sel = int(key[0]), key[1]
-    return env[-1 - up][sel]
+    up, sel = key[0], key[1]
+    if up == "root":
+        return env[0][sel]   # root keys are only generated in top-level family trees (outermost frame == the tree's own)
+    return env[-1 - int(up)][sel]
 
 
 def _adapt(spec, child_vals: List[Val], ctx=None, mapping: bool = False) -> List[Val]:
@@ -559,7 +582,7 @@ def _free_depth(d, frames: int) -> int:
     k = d[0]
     worst = -1
     if k in ("ctxswitch", "ctxadapter"):
-        worst = max(worst, int(d[1][0]) - frames)
+        worst = max(worst, 99 if d[1][0] == "root" else int(d[1][0]) - frames)  # a root lookup is never closed below the top level
     if k == "optflagged":
         worst = max(worst, 0 - frames)
     for child, pushes in _children(d):
@@ -597,10 +620,15 @@ def _children(d):
     return []
 
 
+def _full(d) -> bool:
+    """leaf descriptors ending in "full" sweep the complete 8-bit wire domain and are exempt from the value cap."""
+    return d[0] == "intflag" and d[-1] == "full"
+
+
 def domain(desc, cap: int = CAP) -> List[Val]:
     """Values of a *closed* descriptor (<= cap, every direct member value still occurring where possible)."""
     d = T(desc)
-    return _thin(_dom(d, []), cap)
+    return _dom(d, []) if _full(d) else _thin(_dom(d, []), cap)
 
 
 def _dom(d, env) -> List[Val]:
@@ -608,7 +636,8 @@ def _dom(d, env) -> List[Val]:
     if closed and d in _DOM_CACHE:
         return _DOM_CACHE[d]
     vals = _dom_raw(d, env)
-    vals = _thin(vals, 2 * CAP)
+    if not _full(d):
+        vals = _thin(vals, 2 * CAP)
     if closed:
         _DOM_CACHE[d] = vals
     return vals
@@ -689,8 +718,8 @@ def _dom_raw(d, env) -> List[Val]:
             out.append(Val(f, f, _both(d[1], w)))
         return out
     if k in ("qfloat", "intenum", "intflag", "bitfield", "bfdc", "booladapter", "expr"):
-        # (adapter leaves: wire-first over the primitive's alphabet)
-        vals = _prim_vals(d[1])
+        # (adapter leaves: wire-first over the primitive's alphabet -- or the complete 8-bit wire domain for "full" flag leaves)
+        vals = _prim_vals(d[1], range(*((0, 256) if d[1] == "U8" else (-128, 128)))) if _full(d) else _prim_vals(d[1])
         if k == "intenum" and d[2]:
             vals = [v for v in vals if v.rich in (0, 1, 255)]  # strict: members only (independent of decode)
         return _adapt(build(d), vals, mapping=k in ("bitfield", "bfdc"))
@@ -941,7 +970,7 @@ _LABEL = {"prim": lambda d: d[1], "bytearray": lambda d: f"ByteArray({d[1]})", "
           "qvec": lambda d: f"{d[1]}({d[2]},{d[3]})", "fpvec": lambda d: f"FixedPointVector3U16({d[1]},{d[2]},{d[3]})",
           "packedquat": lambda d: f"PackedQuat({d[1]})", "null": lambda d: "Null",
           "qfloat": lambda d: f"QuantizedFloat({d[1]},{d[2]},{d[3]}{',zero_median=%s' % d[4] if len(d) > 4 else ''})", "fixedpoint": lambda d: f"FixedPoint({d[1]},{d[2]},{d[3]},{d[4]})",
-          "intenum": lambda d: f"IntEnum({d[1]}{',strict' if d[2] else ''})", "intflag": lambda d: f"IntFlag({d[1]})",
+          "intenum": lambda d: f"IntEnum({d[1]}{',strict' if d[2] else ''})", "intflag": lambda d: "IntFlag(%s)" % ",".join(str(x) for x in d[1:]),
           "bitfield": lambda d: f"BitField({d[1]},{d[2]}{'' if d[3] else ',noshift'})", "bfdc": lambda d: f"BitfieldDataclass({d[1]}{',' + d[2] if len(d) > 2 else ''})",
           "booladapter": lambda d: f"BoolAdapter({d[1]})", "expr": lambda d: f"ExprAdapter({d[1]}{',identity' if len(d) > 2 else ''})", "strenum": lambda d: "StringEnumAdapter",
           "optprefixed": lambda d: "OptionalPrefixed", "ifpresent": lambda d: "IfPresent",
@@ -955,8 +984,12 @@ _LABEL = {"prim": lambda d: d[1], "bytearray": lambda d: f"ByteArray({d[1]})", "
           "dict": lambda d: "MultiDictAdapter" if d[1] else "DictAdapter", "tuple": lambda d: "Tuple",
           "template": lambda d: "Template(skip_missing)" if d[2] else "Template", "dataclass": lambda d: "Dataclass",
           "enumswitch": lambda d: f"EnumSwitch({d[1]})", "flagswitch": lambda d: f"FlagSwitch({d[1]})", "lenswitch": lambda d: "LengthSwitch",
-          "optflagged": lambda d: f"OptionalFlagged({d[1]}&{d[3]})", "ctxswitch": lambda d: f"ContextSwitch(up{d[1][0]}.{d[1][1]})",
-          "ctxadapter": lambda d: f"ContextAdapter(up{d[1][0]}.{d[1][1]})"}
+          "optflagged": lambda d: f"OptionalFlagged({d[1]}&{d[3]})", "ctxswitch": lambda d: f"ContextSwitch({_keylabel(d[1])})",
+          "ctxadapter": lambda d: f"ContextAdapter({_keylabel(d[1])})"}
+
+
+def _keylabel(key) -> str:
+    return ("root" if key[0] == "root" else f"up{key[0]}") + ("." if len(key) > 2 else "[") + str(key[1]) + ("" if len(key) > 2 else "]")
 
 
 def _nct(d, i) -> str:
@@ -1138,6 +1171,9 @@ LEAVES: List[tuple] = (
        ("fixedpoint", "U16", 8, 8, False), ("fixedpoint", "U16", 8, 7, True), ("fixedpoint", "U8", 4, 4, False),
        ("intenum", "U8", False), ("intenum", "U8", True), ("intenum", "U16", False), ("intenum", "S8", False),
        ("intflag", "U8"), ("intflag", "S8"), ("intflag", "U16"),
+       # flag class with NONE=0, an alias, multi-bit combinations and a member-less mask; "full" = complete 8-bit wire domain
+       ("intflag", "U8", "mask"), ("intflag", "U16", "mask"), ("intflag", "U8", "mask", "full"), ("intflag", "S8", "mask", "full"),
+       ("intflag", "U8", "F8", "full"), ("intflag", "S8", "F8", "full"),
        ("bitfield", "U8", "full8", True), ("bitfield", "U8", "full8", False), ("bitfield", "U16", "part16", True),
        ("bitfield", "U8", "adapt8", True), ("bfdc", "U8"), ("booladapter", "U8"), ("expr", "U8"),
        ("bitfield", "U8", "media8", False), ("bitfield", "U8", "parcel8", False), ("bitfield", "U16", "part16", False),
@@ -1202,6 +1238,27 @@ def families() -> List[tuple]:
     out += [("tuple", (U8, ("ctxadapter", (0, 0), U8, ADS))),
             ("template", (("k", U8), ("v", ("ctxadapter", (0, "k"), U8, ADS))), False),
             ("template", (("k", U8), ("vs", ("coll", "U8", ("ctxadapter", (1, "k"), U8, ADS)))), False)]
+    # context-dependent entries inside every collection framing: parent (ctx._), grand-parent (ctx._._) and root lookups,
+    # item and attribute access, scalar and tuple entries, ContextSwitch and ContextAdapter
+    MASKF = ("intflag", "U8", "mask")
+    for a in BASIS:
+        for b in BASIS2:
+            opts, opts2 = ((0, a), (1, b)), ((0, b), ("*", a))
+            for ln in ("U8", 2, 3, None):
+                entries = [("ctxswitch", (1, "k"), opts), ("ctxswitch", (1, "k", "attr"), opts2), ("ctxswitch", ("root", "k", "attr"), opts),
+                           ("tuple", (U8, ("ctxswitch", (2, "k", "attr"), opts))), ("tuple", (("ctxswitch", ("root", "k"), opts2), U8))]
+                for e in entries:
+                    out.append(("template", (("k", U8), ("items", ("coll", ln, e))), False))
+                out.append(("tuple", (U8, ("coll", ln, ("ctxswitch", (1, 0), opts)))))
+                out.append(("dataclass", (("k", U8), ("items", ("coll", ln, ("ctxswitch", ("root", "k", "attr"), opts))))))
+            out.append(("template", (("k", U8), ("rows", ("coll", "U8", ("coll", 2, ("ctxswitch", (2, "k"), opts))))), False))
+            out.append(("template", (("k", U8), ("rows", ("coll", 2, ("coll", "U8", ("ctxswitch", ("root", "k"), opts))))), False))
+            out.append(("template", (("k", U8), ("blob", ("typedbytearray", "U8", ("coll", 2, ("ctxswitch", (1, "k"), opts)), False, False))), False))
+        out.append(("template", (("flags", MASKF), ("x", ("optflagged", "flags", MASKF, 1, a)), ("y", ("optflagged", "flags", MASKF, 0xC0, U8))), False))
+    for ln in ("U8", 2, None):
+        ADS2 = ((0, ("a_bool",)), (1, ("a_expr",)), ("*", ("a_id",)))
+        out += [("template", (("k", U8), ("vs", ("coll", ln, ("ctxadapter", (1, "k"), U8, ADS2)))), False),
+                ("template", (("k", U8), ("vs", ("coll", ln, ("tuple", (("ctxadapter", ("root", "k", "attr"), U8, ADS2), U8))))), False)]
     out += [("tuple", ()), ("template", (), False), ("lenswitch", ((1, U8), (2, P("U16")), (16, ("uuid",))))]
     for a in BASIS:
         out += [("tuple", (a,)), ("tuple", (U8, P("S16"), a)), ("template", (("only", a),), False),
